@@ -18,5 +18,8 @@ CONSTANTS TcpT = 2
           IdleMatters = TRUE
           CheckExpiry = TRUE
           WrapKeeps = TRUE
+          Routines <- NoRoutines
+          CachePeriod = 1
+          CacheSlack = 0
 POSTCONDITION TraceAccepted
 CHECK_DEADLOCK FALSE
